@@ -251,6 +251,35 @@ def run(fx, tier):
                 where='%s:%d' % (caller.path_file(), line))
         if seen == 0:
             raise AnalysisBroken('no caller of %s::%s found' % (tgt_cls, tgt_names))
+    # "an identifier becomes reusable only after its exchange completed": a QoS 2 exchange is over at PUBREC only when the
+    # PUBREC carries an ERROR reason code (0x80 and above, reason_code::operator bool); every other PUBREC - including the
+    # success-class 0x10 - keeps the identifier until PUBCOMP
+    from c03 import rc_failing_test
+    from acks import decode_on_path, opt_truth
+    n_rec = 0
+    for f in entry_points(fx, ('publish_send_op',)):
+        if (f.tag or f.n) != 'on_pubrec':
+            continue
+        for pi, p in enumerate(op_paths(fx, f)):
+            end = p.end()
+            if end[0] != 'complete':
+                continue
+            decs = [d for d, n in decode_on_path(p) if n == 'decode_pubrec']
+            if len(decs) != 1 or opt_truth(p, (decs[0].b, decs[0].i)) is not True:
+                continue                      # error / cancelled / undecodable paths: judged by C01/C02
+            if p.ec_success() is False:
+                continue
+            from acks import completion_kind
+            comps = p.entered('complete')
+            if comps and all(completion_kind(p, p.arg(c_, 0)) == 'error' for c_ in comps):
+                continue                      # completes with a literal error (cancelled re-send): not an acknowledged end
+            n_rec += 1
+            failing = rc_failing_test(p)
+            v.check(failing is True, 'R-PAIR', '%s:path%d:ends-at-pubrec' % (describe(f), pi),
+                    'a QoS 2 exchange that ends (and frees its identifier) on a decoded PUBREC has proved the reason code to be an error (proved=%s)' % failing,
+                    key='C08:R-PAIR:on_pubrec:ends-only-on-error-code', where=f.file)
+    if n_rec == 0 and not v.violations:
+        raise AnalysisBroken('publish_send_op on_pubrec: no path completing on a decoded PUBREC found')
     # the set of identifiers in use lives in ONE allocator object for the life of the service: nothing replaces,
     # resets, moves from or swaps client_service::_pid_allocator, and nothing but allocate()/free() is called on it
     # (a reset while exchanges are outstanding makes their later free_pid() a double free: the id is handed out twice)
